@@ -268,6 +268,10 @@ def run(ctx):
                 ctx.violation('%s finished but the output is %s' % (entry, 'unchanged/absent' if r['content'] is None else 'not JSON'), dict(data, kind='output-missing'))
             else:
                 got = r['content']
+                # the output was read back through nbformat (which joins lines and repairs missing / duplicate ids):
+                # put the library result through the same write/read cycle before comparing
+                import nbformat
+                lib_merged = plain(nbformat.reads(nbformat.writes(nbformat.from_dict(copy.deepcopy(lib_merged))), as_version=4))
                 if canon(mergelib.mask_new_ids(got, known)) != canon(mergelib.mask_new_ids(lib_merged, known)):
                     ctx.violation('%s output differs from the library merge' % entry, dict(data, kind='output-differs'))
             pred = ('complete', want_rc)
